@@ -11,8 +11,9 @@ One output line per input line:
                  `<class>`: the unit is in the class of `CprocVerif.C12.function_like_correct_init` — its
                  leading directive lines, run through the model, leave a table `ms0` with `tblOKb ms0`, and
                  the rest of the text satisfies `textOKb ms0` — `F` when `ms0` has a function-like macro, else `O`;
-                 `P` = the text satisfies `textPb ms0` only (arguments that name object-like macros): the
-                 class of `CprocVerif.C12.function_like_args_correct_init`
+                 `P` = `tblOKSb ms0` (function-like macros may use `# parameter`) and the text satisfies `textPb ms0`
+                 (arguments that name object-like macros and hold nested invocations): the class of
+                 `CprocVerif.C12.function_like_correct_total`, beyond `F`/`O`
                  `<tok>` = `<kind number>:<lit hex | ->:<space 0|1>`
 * `ppnl <hex>` → the same with `PPNEWLINE` set (what `-E` does)
 * `ref <hex>`  → the reference (`Spec/MacroRef.lean`): `<tok> … [!<error class>] [@<flags>]`, keywords converted
@@ -98,15 +99,32 @@ def splitDirs : Nat → List PP.Tok → List PP.Tok × List PP.Tok
       (t :: more.1, more.2)
     else ([], t :: r)
 
-/-- membership in the class of `function_like_correct_init`, by the tests the theorem is stated with -/
-def classOf (raw : List PP.Tok) : String :=
+/-- membership in the class of `function_like_correct_total`, by the tests the theorem is stated with.
+For a unit in the class the two gaps between the theorem and the unit are evaluated as well: the
+theorem's reference side (`expandH` on the table the model built and the text after the directives)
+against the reference on the whole unit (`expandUnit`: its own parse of the `#define` lines), and the
+theorem's model side (the run from the state `{ raw := text, macros := table }`) against the model's
+run on the whole unit; a difference is reported as class `X…` -/
+def classOf (raw : List PP.Tok) (unit : List Spec.MacroRef.PTok) (whole : List String) (wholeErr : Bool) : String :=
   let sp := splitDirs raw.length raw
   match PP.exec FUEL .next (PP.St.init sp.1 false) with
   | .ok st1 =>
-    if st1.tok.kind = .TEOF && st1.ctx.isEmpty && !st1.prag && PP.tblOKb st1.macros && st1.macros.all (fun m => !m.hide) then
-      if PP.textOKb st1.macros (sp.2.length + 1) sp.2 then (if st1.macros.any (·.func) then " %F" else " %O")
-      else if PP.textPb st1.macros (sp.2.length + 1) sp.2 then " %P"
-      else ""
+    if st1.tok.kind = .TEOF && st1.ctx.isEmpty && !st1.prag && PP.tblOKSb st1.macros && st1.macros.all (fun m => !m.hide) then
+      let cls :=
+        if PP.tblOKb st1.macros && PP.textOKb st1.macros (sp.2.length + 1) sp.2 then
+          (if st1.macros.any (·.func) then "F" else "O")
+        else if PP.textPb st1.macros (sp.2.length + 1) sp.2 then "P"
+        else ""
+      if cls = "" then ""
+      else
+        let o1 := Spec.MacroRef.expandH false 50000 (PP.tblF st1.macros) ((PP.absRawF sp.2).map .tok)
+        let o2 := Spec.MacroRef.expandUnit 50000 unit
+        let refGap : Bool :=
+          o1.2.1 != some .fuel && o2.err != some .fuel &&
+          (o1.2.1 != o2.err || o1.1.map (fun t => PP.kwKey t.tok.key) != o2.toks.map (fun t => PP.kwKey t.key))
+        let r2 := runAcc MAXOUT { raw := sp.2, macros := st1.macros } #[]
+        let modelGap : Bool := !wholeErr && r2.2.1.isNone && r2.1.toList != whole
+        " %" ++ (if refGap then "Xref-" else if modelGap then "Xmodel-" else "") ++ cls
     else ""
   | .error _ => ""
 
@@ -117,7 +135,10 @@ def showModel (bs : List UInt8) (ppnl : Bool) : String :=
   let e := match r.2.1 with | none => "" | some e => " !" ++ errName e
   let evs := r.2.2.events.eraseDups
   let ev := if evs.isEmpty then "" else " @" ++ ",".intercalate (evs.map evName)
-  toks ++ e ++ ev ++ (if ppnl then "" else classOf raw)
+  let sc := Scan.tokensP bs
+  let unit : List Spec.MacroRef.PTok :=
+    sc.1.map (fun t => ⟨t.kind, t.lit, t.space⟩) ++ (match sc.2 with | none => [] | some _ => [⟨.TNONE, none, false⟩])
+  toks ++ e ++ ev ++ (if ppnl then "" else classOf raw unit r.1.toList r.2.1.isSome)
 
 def refErr : Spec.MacroRef.RErr → String
   | .fuel => "fuel" | .lex => "lex" | .badDefine => "badDefine" | .dupParam => "dupParam" | .vaArgs => "vaArgs"
